@@ -295,6 +295,11 @@ pub fn strings() -> Vec<String> {
             "]]&gt;",
             "1e308",
             "NaN",
+            // carriage returns (stored as character references since repair #33)
+            "a\rb",
+            "\r\n",
+            "\r",
+            "line\r\nline]]>\r",
         ]
         .iter()
         .map(|s| s.to_string()),
